@@ -965,6 +965,8 @@ def translate_all(repo):
             text, pr = None, ['%s: %r' % (relfile, e)]
         files[ns + '.lean'] = text
         probs[ns + '.lean'] = pr
+    import np2lean
+    np2lean.translate_all(repo, files, probs)
     return files, probs
 
 
